@@ -164,6 +164,33 @@ void h_gettsec(void)
 	CANARY("gettsec");
 }
 
+/* titles of different lengths (one may be a prefix of the other): lookup is by the WHOLE title */
+static _Bool title_eq2(const char *a, const char *b, _Bool nocase)
+{
+	for (int i = 0; i < 3; i++) {
+		char x = nocase ? spec_lc(a[i]) : a[i], y = nocase ? spec_lc(b[i]) : b[i];
+		if (x != y) return 0;
+		if (x == 0) return 1;
+	}
+	return 1;
+}
+char in_t0[3], in_t1[3], in_ask[3];
+void h_gettsec_long(void)
+{
+	cfg_opt_t o; cfg_t s0, s1; cfg_value_t v0, v1, *vals[2]; int want; _Bool nocase = nondet_bool(); long got;
+	memset(&o, 0, sizeof o); memset(&s0, 0, sizeof s0); memset(&s1, 0, sizeof s1);
+	in_t0[0] = nondet_char(); in_t0[1] = nondet_char(); in_t0[2] = 0; in_t1[0] = nondet_char(); in_t1[1] = nondet_char(); in_t1[2] = 0;
+	in_ask[0] = nondet_char(); in_ask[1] = nondet_char(); in_ask[2] = 0;
+	__CPROVER_assume(in_t0[0] != 0 && in_t1[0] != 0 && in_ask[0] != 0);
+	s0.title = in_t0; s1.title = in_t1; v0.section = &s0; v1.section = &s1; vals[0] = &v0; vals[1] = &v1;
+	o.name = "o"; o.type = CFGT_SEC; o.flags = CFGF_MULTI | CFGF_TITLE | (nocase ? CFGF_NOCASE : 0); o.nvalues = 2; o.values = vals;
+	want = title_eq2(in_ask, in_t0, nocase) ? 0 : title_eq2(in_ask, in_t1, nocase) ? 1 : -1;
+	got = cfg_opt_gettsecidx(&o, in_ask);
+	CHECK("C09,C11", got == want, "title lookup compares whole titles (a title that is a prefix of another one is a different title)");
+	CHECK("C09,C11", cfg_opt_gettsec(&o, in_ask) == (want == 0 ? &s0 : want == 1 ? &s1 : NULL), "section-by-title returns the instance carrying exactly that title");
+	CANARY("gettsec_long");
+}
+
 /* ------------------------------------------------------------------------------------------------ removal
  * contract::cfg_opt_rmnsec(opt, index): not a section option / index >= count -> CFG_FAIL without effect;
  * else the instance is released exactly once (shared search path detached first), its slot released, the others
